@@ -82,7 +82,8 @@ func (v *Value) IsInteger() bool {
 		v.getResolvedValue().Kind() == reflect.Uint8 ||
 		v.getResolvedValue().Kind() == reflect.Uint16 ||
 		v.getResolvedValue().Kind() == reflect.Uint32 ||
-		v.getResolvedValue().Kind() == reflect.Uint64
+		v.getResolvedValue().Kind() == reflect.Uint64 ||
+		v.getResolvedValue().Kind() == reflect.Uintptr
 }
 
 // IsNumber checks whether the underlying value is either an integer
@@ -130,7 +131,7 @@ func (v *Value) String() string {
 		return v.getResolvedValue().String()
 	case reflect.Int, reflect.Int8, reflect.Int16, reflect.Int32, reflect.Int64:
 		return strconv.FormatInt(v.getResolvedValue().Int(), 10)
-	case reflect.Uint, reflect.Uint8, reflect.Uint16, reflect.Uint32, reflect.Uint64:
+	case reflect.Uint, reflect.Uint8, reflect.Uint16, reflect.Uint32, reflect.Uint64, reflect.Uintptr:
 		return strconv.FormatUint(v.getResolvedValue().Uint(), 10)
 	case reflect.Float32, reflect.Float64:
 		return fmt.Sprintf("%f", v.getResolvedValue().Float())
@@ -152,7 +153,7 @@ func (v *Value) Integer() int {
 	switch v.getResolvedValue().Kind() {
 	case reflect.Int, reflect.Int8, reflect.Int16, reflect.Int32, reflect.Int64:
 		return int(v.getResolvedValue().Int())
-	case reflect.Uint, reflect.Uint8, reflect.Uint16, reflect.Uint32, reflect.Uint64:
+	case reflect.Uint, reflect.Uint8, reflect.Uint16, reflect.Uint32, reflect.Uint64, reflect.Uintptr:
 		// (an unsigned number no int can hold saturates, it does not turn negative)
 		if u := v.getResolvedValue().Uint(); u <= math.MaxInt {
 			return int(u)
@@ -213,7 +214,7 @@ func (v *Value) Float() float64 {
 	switch v.getResolvedValue().Kind() {
 	case reflect.Int, reflect.Int8, reflect.Int16, reflect.Int32, reflect.Int64:
 		return float64(v.getResolvedValue().Int())
-	case reflect.Uint, reflect.Uint8, reflect.Uint16, reflect.Uint32, reflect.Uint64:
+	case reflect.Uint, reflect.Uint8, reflect.Uint16, reflect.Uint32, reflect.Uint64, reflect.Uintptr:
 		return float64(v.getResolvedValue().Uint())
 	case reflect.Float32, reflect.Float64:
 		return v.getResolvedValue().Float()
@@ -269,7 +270,7 @@ func (v *Value) IsTrue() bool {
 	switch v.getResolvedValue().Kind() {
 	case reflect.Int, reflect.Int8, reflect.Int16, reflect.Int32, reflect.Int64:
 		return v.getResolvedValue().Int() != 0
-	case reflect.Uint, reflect.Uint8, reflect.Uint16, reflect.Uint32, reflect.Uint64:
+	case reflect.Uint, reflect.Uint8, reflect.Uint16, reflect.Uint32, reflect.Uint64, reflect.Uintptr:
 		return v.getResolvedValue().Uint() != 0
 	case reflect.Float32, reflect.Float64:
 		return v.getResolvedValue().Float() != 0
@@ -295,7 +296,7 @@ func (v *Value) IsTrue() bool {
 func (v *Value) Negate() *Value {
 	switch v.getResolvedValue().Kind() {
 	case reflect.Int, reflect.Int8, reflect.Int16, reflect.Int32, reflect.Int64,
-		reflect.Uint, reflect.Uint8, reflect.Uint16, reflect.Uint32, reflect.Uint64:
+		reflect.Uint, reflect.Uint8, reflect.Uint16, reflect.Uint32, reflect.Uint64, reflect.Uintptr:
 		if v.Integer() != 0 {
 			return AsValue(0)
 		}
@@ -706,7 +707,7 @@ func bigNumber(v *Value) *big.Float {
 	switch rv.Kind() {
 	case reflect.Int, reflect.Int8, reflect.Int16, reflect.Int32, reflect.Int64:
 		return new(big.Float).SetInt64(rv.Int())
-	case reflect.Uint, reflect.Uint8, reflect.Uint16, reflect.Uint32, reflect.Uint64:
+	case reflect.Uint, reflect.Uint8, reflect.Uint16, reflect.Uint32, reflect.Uint64, reflect.Uintptr:
 		return new(big.Float).SetUint64(rv.Uint())
 	}
 	f := v.Float()
